@@ -49,6 +49,7 @@ SPEC = {
             ob('harness_countdown', defines=['-DNA=7'], tier='thorough', **CD9, bounds='countdown value any 32-bit int; 7 allocations after it; set_not_out_of_memory before a symbolic one of them (or never)'),
             ob('harness_oom_switch', defines=['-DNA=7'], tier='thorough', **CD9, bounds='7 steps, each symbolically nothing / set_out_of_memory / set_not_out_of_memory, followed by an allocation'),
             ob('harness_oom_switch', **CD, bounds='4 steps, each symbolically nothing / set_out_of_memory / set_not_out_of_memory, followed by an allocation'),
+            ob('harness_countdown_mixed', **CD, bounds='countdown value any 32-bit int; then strdup, calloc, malloc, strdup; set_not_out_of_memory before a symbolic one of them (or never)'),
             ob('harness_oom_calloc', **CD, bounds='calloc(2,4) with and without simulated out-of-memory'),
         ],
     }],
